@@ -81,10 +81,23 @@ CLAIMS = {
         text="Proved: lane arithmetic (n_queue consecutive tickets -> distinct lanes, per-lane turn counter steps by n_queue); for the ticket protocol without abort, for any number of threads and any "
              "interleaving: the pop holding ticket k receives exactly the k-th pushed value, every item at most once, live pops hold distinct tickets, the push order is stable. "
              "Refuted (theorem + real replay, recorded as known finding): abort of a blocked pop breaks ticket uniqueness and strands an item. "
+             "concurrent_bounded_queue try_push/try_pop claim loops (BqModel, any number of threads, any interleaving of head/tail accesses): outstanding tickets never exceed the capacity, "
+             "try_push reports full / try_pop reports empty only at an access where that is true, tickets are handed out once each in order; tied per access to the real queue under the gate (bq-gate). "
              "The real concurrent_queue runs under the atomic-access gate with random interleavings and a Wing-Gong linearizability oracle; both queues run with real threads under a conservation/order/capacity oracle.",
         note="PARTIAL: the model is at ticket level; micro_queue internals (pages, masks, per-lane counters, invalid entries, throwing constructors) and the bounded queue's monitors are explored, not modelled; "
              "try_pop-empty truthfulness is checked by the linearizability oracle only. KNOWN-FINDING bqueue-abort-ticket-reuse is printed on every run.",
         ref="4/C09, 8(c)"),
+    "C06": dict(
+        technique="Coq proof: invariant over every sequence of atomic actions of parallel_reduce's task tree (tree-structured state, induction on the tree and on the op list), free-monoid Body; "
+                  "split/join tree of deterministic reduce as a total function; real runs replayed as model op sequences",
+        text="Proved for every range, every splitting pattern and every order of task starts / body runs / offers / finishes / folds: caller's body ++ pending = lo..hi-1 in order at all times, hence the "
+             "folded result is the sequential left fold for any associative join (monoid lemma, no commutativity); a right body is joined only by its own node into that node's left body after both subtrees "
+             "finished; a right child feeds the left body only when m_ref_count shows the left subtree finished. Deterministic reduce (simple_partitioner): the tree is dsplit(range, grain), its leaves cover the "
+             "range in order and are at most grain long. Tie: real parallel_reduce runs (4 partitioners, 1-16 threads) are logged (body splits, body runs, joins, offer_work via the guarded hook) and replayed "
+             "as ops of the model, which must accept all of them and end with the same body; real deterministic-reduce trees are compared with dsplit.",
+        note="PARTIAL: parallel_scan and parallel_sort are covered by oracle runs only (exactly one final pass per element with the right prefix; sorted permutation around the 500/4000 thresholds, ties, "
+             "pre-sortedness probe covers every adjacent pair); no theorem about sum_node/final_sum or quick_sort_range::split_range. Cancellation of a reduction is not modelled. The log replayer (Python) is trusted.",
+        ref="4/C06"),
     "C20": dict(
         technique="Coq proof: exact characterisation of the reachable configurations of the suspend/resume handshake (inductive invariant, all interleavings); real suspend/resume runs with racing resumers under an exactly-once oracle",
         text="For every interleaving of the suspending thread's exchange(suspended)/self-resume with a resume() from anywhere (incl. the suspend callback itself): at most one resume task is pushed, "
@@ -131,10 +144,11 @@ def main():
         "setup_cmd": "python3 tools/check.py --setup",
         "hooks": {
             "guard": "ONEAPI_SRC_ONETBB_VERIF",
-            "enable": "drivers are compiled by tools/vlib.py with -DONEAPI_SRC_ONETBB_VERIF=1 against /repo's working tree (no source hook is currently needed: "
-                      "observation goes through -fno-access-control, a force-included std::atomic prelude and .cpp inclusion)",
+            "enable": "drivers are compiled by tools/vlib.py with -DONEAPI_SRC_ONETBB_VERIF=1 against /repo's working tree ; most observation goes through "
+                      "-fno-access-control, a force-included std::atomic prelude and .cpp inclusion; the one source hook is the macro __TBB_VERIF_REDUCE_OFFER in "
+                      "include/oneapi/tbb/parallel_reduce.h, which harness/drv/drv_reduce.cpp defines before including the header)",
             "baseline_off_cmd": "cmake -G Ninja -B /repo/_build -S /repo -DCMAKE_BUILD_TYPE=RelWithDebInfo -DTBB_TEST=ON -DCMAKE_CXX_FLAGS=-Wno-error && cmake --build /repo/_build && ctest --test-dir /repo/_build -j8 --timeout 900",
-            "source_commits": [],
+            "source_commits": ["5a0ee5e"],
             "add_only": True,
         },
         "engines": [{"name": "coq-proof+correspondence", "path": "tools/check.py",
